@@ -260,6 +260,8 @@ def write_evidence(prop: str, mach: Any, tier: str, verif_seed: int, agg: dict, 
 def run_batch(prop: str, tier: str, verif_seed: int, workers: int | None = None,
               max_runs: int | None = None, wall: float | None = None) -> int:
     seams.import_repo()
+    from . import simfs
+    simfs.remove_stale()
     mach = load_machine(prop)
     if hasattr(mach, "preload"):
         mach.preload()
